@@ -670,9 +670,9 @@ def mut_memo(repo: Repo) -> List[Mutant]:
 
 
 RULES = {
-    "ORDER": Rule("B-pass-order", rule_pass_order, 40, "on every path of normalize_program each pass finds its preconditions (flat sections, fresh program info, provider passes) established, and the program info is complete at the end", mut_pass_order),
-    "ACTIONS": Rule("B-actions", rule_actions, 8, "in every CLI action a parsed program reaches the recurrence builders / moment functions only through normalize_program", mut_actions),
-    "REBUILD": Rule("B-rebuild", rule_rebuilders, 3, "loops that rebuild a program section keep every assignment on every path (or raise)", mut_rebuilders),
+    "ORDER": Rule("B-pass-order", rule_pass_order, 40, "on every path of normalize_program each pass finds its preconditions (flat sections, fresh program info, provider passes) established, and the program info is complete at the end", mut_pass_order, soft=True),
+    "ACTIONS": Rule("B-actions", rule_actions, 8, "in every CLI action a parsed program reaches the recurrence builders / moment functions only through normalize_program", mut_actions, soft=True),
+    "REBUILD": Rule("B-rebuild", rule_rebuilders, 3, "loops that rebuild a program section keep every assignment on every path (or raise)", mut_rebuilders, soft=True),
     "MEMO": Rule("B-memo", rule_memo_invalidation, 2, "condition memo stores are invalidated for the assigned variable at every assignment", mut_memo, soft=True),
 }
 
